@@ -101,6 +101,12 @@ void harness (void)
   __CPROVER_assert (G.by_value <= 1 && G.adds == 0 && G.removes == 0, "post5 at most one removal; nothing is added");
   __CPROVER_assert (G.unrefs == (G.parses == 1 && G.parse_err == NULL ? 1 : 0), "post6 the parsed value rule is released exactly once on every path");
   __CPROVER_assert (IMP (G.parse_err != NULL, !ok && err.name == G.parse_err && G.by_value == 0), "post7 a rejected rule text => the parser's error is passed on, nothing removed");
+#ifdef VERIF_NO_ACK_ON_FAILURE
+  /* "RemoveMatch removes one rule equal to its argument OR fails with MatchRuleNotFound": a failing call must not also be
+   * acknowledged.  A non-OOM failure does not cancel the transaction (bus_dispatch executes it and adds the error reply),
+   * so an ack staged before the failure reaches the caller as a success reply, followed by the error. */
+  __CPROVER_assert (IMP (!ok && !NAME_IS (err.name, 'N', 0), G.acks == 0), "post8 a RemoveMatch that fails (other than for lack of memory) has not staged a success reply");
+#endif
   if (ok) REACH ("removed"); if (!ok && G.by_value == 1) REACH ("not-found"); if (!ok && G.parse_err) REACH ("invalid");
 #endif
 }
